@@ -3,6 +3,7 @@ CONSTANTS
   MaxPieces = 0
   MaxPhrase = 0
   MaxTmpl = 4
+  MaxDeep = 0
   Hosts = {"tmpl_raw"}
   EmitAll = TRUE
 INVARIANTS Emit
